@@ -12,7 +12,8 @@ CONSTANTS
   PClass = {}
   PNames = {}
   SpawnIn = {"worldspawn", "WorldSpawn", "c", "d"}
-  SpawnQuiet = FALSE
+  SpawnQuiet = TRUE
+  SpawnNames = {"A"}
 INVARIANT Agree
 INVARIANT SpawnRule
 INVARIANT SearchAgree
@@ -20,5 +21,6 @@ INVARIANT NoEmptySets
 INVARIANT OnlyOwn
 PROPERTY Isolated
 PROPERTY SpawnFixed
+CONSTRAINT SpawnBound
 VIEW View
 CHECK_DEADLOCK FALSE
